@@ -121,7 +121,10 @@ def prove(run, cfg, budget_ms):
                             run.trusted.append(x)
     results = solve.solve_all(allobs, budget_ms=budget_ms)
     # retry unknowns once with a doubled budget (sized against load flips)
-    retry = [i for i, r in enumerate(results) if r['status'] == 'unknown']
+    # (only where the function is unchanged since the baseline: on changed code go straight to
+    #  replay / bounded search)
+    retry = [i for i, r in enumerate(results) if r['status'] == 'unknown'
+             and baseline.get(allobs[i].fid, {}).get('src') == per_fn[allobs[i].fid]['src']]
     if retry:
         again = solve.solve_all([allobs[i] for i in retry], budget_ms=budget_ms * 3)
         for i, r in zip(retry, again):
